@@ -553,12 +553,25 @@ structure SearchState where
   tokenLengths : Array TokenLength
   childLineCache : ChildLineCache
 
+/-- `token_lengths`.  The spaces before a token that follows a line comment sharing its line with code are masked
+    out when the token's own spacing rule could have kept the input's value (`keepsCur`): `TokenSpacing` gives such a
+    token no spacing (the comment's rule writes nothing behind it), the wrapper must break before it
+    (`get_formatting_invariant`: a line comment is followed by a line break) and therefore never measures it as a
+    continuation, and the value is zeroed when the token starts a line.  So the search does not depend on the
+    indentation of the line behind a trailing comment - by construction here; that the mask changes nothing is part of
+    what the `wsearch` and `full` correspondences check on every case. -/
+def tokenLengthsGo : Option Kind → FT → List TokenLength
+  | _, [] => []
+  | prev, t :: r =>
+    let free := prev == some (.tComment .cInlineLine) && keepsCur t.tok.kind
+    { spacesBefore := if free then 0 else t.fmt.sp, content := t.tok.content.length } :: tokenLengthsGo (some t.tok.kind) r
+
 /-- the set-up of `OptimisingLineFormatter::format` (`get_line_children`, `token_types`, `token_lengths`, empty cache) -/
 def searchInit (cfg : Config) (lines : List Line) (ft : FT) : SearchState :=
   let linesA := (lines.map Line.toA).toArray
   { cfg := cfg.searchCfg, lines := linesA, lineChildren := getLineChildren linesA,
     tokenTypes := (ft.map fun t => t.tok.kind).toArray,
-    tokenLengths := (ft.map fun t => ({ spacesBefore := t.fmt.sp, content := t.tok.content.length } : TokenLength)).toArray,
+    tokenLengths := (tokenLengthsGo none ft).toArray,
     childLineCache := {} }
 
 /-- `format_line` on top-level line `lineIdx` with the tokens as they are now (`ft`: counters and texts are read live,
